@@ -9,6 +9,7 @@ import IpcHub.Props.C01
 import IpcHub.Model.FlvCacheM
 import IpcHub.Lemmas.FlvCacheM
 import IpcHub.Lemmas.MediaPacketise
+import IpcHub.Lemmas.FlvTimeline
 namespace IpcHub.Props.C02
 open IpcHub.Media
 open IpcHub.Props.C01 (subseq countOf)
@@ -210,6 +211,51 @@ theorem c02_flv_cache_state (gop : Bool) (tags : List IpcHub.FlvCacheM.FTag) :
   intro c
   have h := IpcHub.FlvCacheM.fspec_cacheAfter gop tags
   exact ⟨h.md, h.vs, h.as, h.gopS⟩
+
+/-- The FLV joiner's timeline starts at zero — composition of the cache replay with the FLV
+    writer's rebase (the writer model of C08; `cfg.sentinelInit = false` is what the regenerated
+    facts of the current tree give, `c08_gen_cfg`, and `c08_joiner_timeline_zero` is this
+    theorem at that configuration).  Whenever
+    the cached GOP is non-empty, the first tag the joiner's writer is handed carries the
+    timestamp of the first replayed media tag `g0`, the writer takes it as its time base, and
+    every replayed header tag as well as `g0` itself go on the wire with timestamp 0.  (Later
+    tags go out with `ts − g0.ts`: `c08_rebase_never_wraps`.) -/
+theorem c02_flv_timeline_starts_at_zero (cfg : IpcHub.Flv.Cfg) (hs : cfg.sentinelInit = false)
+    (gop : Bool) (tags : List IpcHub.FlvCacheM.FTag)
+    (g0 : IpcHub.FlvCacheM.FTag) (rest : List IpcHub.FlvCacheM.FTag)
+    (hg : (IpcHub.FlvCacheM.cacheAfter gop tags).gop = g0 :: rest) :
+    let c := IpcHub.FlvCacheM.cacheAfter gop tags
+    let w1 : IpcHub.Flv.Writer := { delta := UInt32.ofNat g0.ts, started := true }
+    (∃ first more, c.pushTo.map IpcHub.FlvCacheM.toTag = first :: more ∧
+        IpcHub.Flv.Writer.next cfg {} first = w1) ∧
+    (∀ t ∈ c.headers ++ [g0], IpcHub.FlvCacheM.wireTs cfg w1 (IpcHub.FlvCacheM.toTag t) = 0) := by
+  intro c w1
+  have hinit : c.initTs = g0.ts := by
+    show (IpcHub.FlvCacheM.cacheAfter gop tags).initTs = g0.ts
+    simp [IpcHub.FlvCacheM.FCache.initTs, hg]
+  have hts : ∀ t ∈ c.headers ++ [g0], (IpcHub.FlvCacheM.toTag t).timestamp = UInt32.ofNat g0.ts := by
+    intro t ht
+    simp only [List.mem_append, List.mem_singleton] at ht
+    rcases ht with ht | rfl
+    · simp only [IpcHub.FlvCacheM.FCache.headers, List.mem_map] at ht
+      obtain ⟨t', _, rfl⟩ := ht
+      simp [IpcHub.FlvCacheM.toTag, IpcHub.FlvCacheM.restamp, hinit]
+    · rfl
+  constructor
+  · -- the first tag handed to the writer is a header or g0: both carry g0's timestamp
+    have hpush : c.pushTo = c.headers ++ g0 :: rest := by
+      show (IpcHub.FlvCacheM.cacheAfter gop tags).headers ++ (IpcHub.FlvCacheM.cacheAfter gop tags).gop = _
+      rw [hg]
+    cases hh : c.headers with
+    | nil =>
+      refine ⟨IpcHub.FlvCacheM.toTag g0, rest.map IpcHub.FlvCacheM.toTag, by simp [hpush, hh], ?_⟩
+      simp [IpcHub.Flv.Writer.next, IpcHub.Flv.Writer.isFirst, hs, IpcHub.FlvCacheM.toTag, w1]
+    | cons h0 hrest =>
+      refine ⟨IpcHub.FlvCacheM.toTag h0, (hrest ++ g0 :: rest).map IpcHub.FlvCacheM.toTag, by simp [hpush, hh], ?_⟩
+      have := hts h0 (by simp [hh])
+      simp [IpcHub.Flv.Writer.next, IpcHub.Flv.Writer.isFirst, hs, this, w1]
+  · intro t ht
+    exact IpcHub.FlvCacheM.same_ts_zero _ _ _ (hts t ht)
 
 /-- non-vacuity / sanity of the cache specification on a concrete H.264 sequence -/
 example :
